@@ -187,6 +187,36 @@ def search_C05_C06(pid, budget):
             fail(pid, "split-args", "no ValueError", args=[mn, mx, ms, aw])
         except ValueError:
             pass
+    # an abandoned, partially consumed split() generator over a recorder is finalised while the next split() is in progress
+    import struct as _s3
+    import gc as _gc
+    from auditok import AudioReader as _AR
+    sig_ = b"".join((_s3.pack("<10h", *([9000, -9000] * 5)) if c == "A" else bytes(20)) for c in "aAAAaaAAAAaaaAAa")
+    kw_ = dict(min_dur=0.02, max_dur=0.05, max_silence=0.01)
+    ref_ = [(round(r.start * 1000), bytes(r)) for r in split(sig_, sr=1000, sw=2, ch=1, analysis_window=0.01, **kw_)]
+    for how in ("close", "del"):
+        n += 1
+        rec_ = _AR(sig_, block_dur=0.01, record=True, sr=1000, sw=2, ch=1)
+        g1 = split(rec_, **kw_)
+        next(g1)
+        list(split(rec_, **kw_))            # drain the stream through a second generator so that everything is recorded
+        rec_.rewind()
+        g2 = split(rec_, **kw_)
+        got_ = [next(g2)]
+        if how == "close":
+            g1.close()
+        else:
+            del g1
+            _gc.collect()
+        try:
+            got_ += list(g2)
+            got_ = [(round(r.start * 1000), bytes(r)) for r in got_]
+        except Exception as e:  # noqa
+            got_ = "raised %s" % type(e).__name__
+        if got_ != ref_:
+            fail(pid, "split-stale-generator", "an earlier, partially consumed split() generator over the same recorder is finalised (%s) "
+                 "after the next split() delivered its first region: the new run gives %r, expected %d regions" % (
+                     how, got_ if isinstance(got_, str) else len(got_), len(ref_)))
     # an AudioReader with overlapping windows: w is its BLOCK duration (each frame the tokenizer sees is one block)
     from auditok import AudioReader
     import struct as _s2
@@ -664,6 +694,31 @@ def search_C10_C19(pid, budget):
             fail(pid, "reader", "AudioReader(block_dur=%d.5/%d, hop_dur=%d.5/%d): reports block_size=%r hop_size=%r block_dur=%r hop_dur=%r, "
                  "the blocks it returns have %d samples and advance by %d" % (nb, sr_, nh, sr_, rep[0], rep[1], rr.block_dur, rr.hop_dur,
                                                                                real_block, real_hop))
+    # replay only part of the recording, rewind again: the recording is still everything consumed before the FIRST rewind;
+    # a reader closed before its first rewind still replays (rewind opens the replay)
+    for hd in (None, 0.2):
+        for closed_first in (False, True):
+            n += 1
+            dpr = bytes((i * 11 + 5) % 256 for i in range(120))
+            rp = AudioReader(dpr, block_dur=0.4, hop_dur=hd, record=True, sr=10, sw=2, ch=1)
+            rp.open()
+            first_pass = [rp.read() for _ in range(6)]
+            if closed_first:
+                rp.close()
+            rp.rewind()
+            rec0 = rp.data
+            try:
+                part = [rp.read() for _ in range(2)]
+                rp.rewind()
+                rec1 = rp.data
+                again = [rp.read() for _ in range(6)]
+            except Exception as e:  # noqa
+                fail(pid, "recorder-partial-replay", "%s(hop_dur=%r): reading after rewind%s raised %s" % (
+                    "AudioReader(record=True)", hd, " (reader closed before the first rewind)" if closed_first else "", type(e).__name__))
+            if rec1 != rec0 or again != first_pass or part != first_pass[:2]:
+                fail(pid, "recorder-partial-replay", "hop_dur=%r%s: after replaying 2 of 6 blocks and rewinding again, data has %d bytes (was %d) and the "
+                     "replay gives %d/%d identical blocks" % (hd, ", closed before the first rewind" if closed_first else "", len(rec1), len(rec0),
+                                                            sum(1 for x, y in zip(again, first_pass) if x == y), len(first_pass)))
     # a long recording (thousands of blocks before the first rewind): every sample once, in order
     for (nblk, hd) in ((5000, None), (9000, None), (4500, 0.002)):
         n += 1
@@ -1003,6 +1058,35 @@ def search_C18(pid, budget):
             for f in os.listdir(dotted):
                 os.remove(os.path.join(dotted, f))
             os.rmdir(dotted)
+        # load(skip, max_read) far into a long input (hundreds of thousands of samples), several sample sizes
+        for (sr_, sw_, ch_, skip_, mr_) in ((16000, 2, 1, 5.0, 0.01), (16000, 2, 2, 4.5, 0.002), (44100, 1, 2, 3.0, 0.001), (8000, 4, 1, 9.0, 0.01)):
+            n += 1
+            ns_ = int(sr_ * (skip_ + 1))
+            big = bytes((i * 131 + (i >> 7)) % 256 for i in range(ns_ * sw_ * ch_))
+            try:
+                rg = load(big, sr=sr_, sw=sw_, ch=ch_, skip=skip_, max_read=mr_)
+                got_ = bytes(rg)
+            except Exception as e:  # noqa
+                got_ = "raised %s" % type(e).__name__
+            a_ = round(skip_ * sr_) * sw_ * ch_
+            exp_ = big[a_: a_ + round(mr_ * sr_) * sw_ * ch_]
+            if got_ != exp_:
+                off = big.find(got_) // (sw_ * ch_) if isinstance(got_, bytes) and got_ else None
+                fail(pid, "load-skip-far", "load(%d samples of %d-byte x %d-channel audio at %d Hz, skip=%r, max_read=%r): slice starts at sample %r, "
+                     "expected %d" % (ns_, sw_, ch_, sr_, skip_, mr_, off, round(skip_ * sr_)))
+        # exists_ok=False refuses to overwrite whatever the format (wav, raw by extension, raw by default, explicit format)
+        for nm_, fmt_ in (("keep.wav", None), ("keep.raw", None), ("keep_noext", None), ("keep.bin", "raw")):
+            n += 1
+            pk = os.path.join(tmp, nm_)
+            open(pk, "wb").write(b"precious")
+            try:
+                AudioRegion(bytes(range(12)), 10, 2, 1).save(pk, fmt_, exists_ok=False)
+                refused = False
+            except FileExistsError:
+                refused = True
+            if not refused or open(pk, "rb").read() != b"precious":
+                fail(pid, "save-exists", "save(%r, audio_format=%r, exists_ok=False) over an existing file: refused=%r, file now %d bytes" % (
+                    nm_, fmt_, refused, len(open(pk, "rb").read())))
         # saving over an existing, longer file replaces it
         for fmt in ("raw", "wav"):
             n += 1
